@@ -4,3 +4,5 @@ import XProofs.Properties.C02
 #print axioms Properties.C02.C02_order
 #print axioms Properties.C02.C02_findTaskids
 #print axioms Properties.C02.C02_runs_in_order
+#print axioms Properties.C02.C02_findTaskids_once_exact
+#print axioms Properties.C02.C02_acyclic_test_sound
